@@ -1,5 +1,5 @@
 """C03 Generated model loaders/dumpers honour the configured outer layout exactly."""
-from vf.gen import Plan
+from vf.gen import Plan, Module
 from props.fam_model import MEMBERS, member_module, LOAD_PARAMS, LOAD_ARGS, load_slices
 
 QUICK = ["omit_stub", "plain", "rename", "nested", "camel", "skip_gt_only", "map_gt_style", "ellipsis_style", "pairs_map", "stack_override", "stack_style",
@@ -29,6 +29,67 @@ def build(tier, seed):
              "return c03_dump(MEMBER, MODEL, TREE, DUMPERS, mk_obj(v0, v1, v2, e))", pre=["-1 <= e <= 1"], timeout=tmo, family=fam,
              bounds="symbolic stub payloads for the 3 fields (incl. equal to the declared default), extra mapping present/empty; 3 debug modes")
         mods.append(m)
+    mx = Module("c03_extra").pre('''
+import dataclasses
+from typing import Any, Optional, Union
+from adaptix import Retort, name_mapping, NameStyle
+@dataclasses.dataclass
+class MF:
+    a: int
+    m1: Any = dataclasses.field(default_factory=dict)
+    m2: Any = 0
+    xs: Any = dataclasses.field(default_factory=list)
+    s: Any = dataclasses.field(default_factory=str)
+    n: Any = None
+VALS = (None, 0, "", [], {}, False, 5, [1], {"k": 1}, "x", ())
+DEFAULTS = {"m1": {}, "m2": 0, "xs": [], "s": "", "n": None}
+def eq_default(f, v):
+    d = DEFAULTS[f]
+    return type(v) is type(d) and v == d or (v == d and not isinstance(v, bool) and not isinstance(d, bool) and type(v) in (int, float) and type(d) in (int, float))
+RF = {dt: Retort(recipe=[name_mapping(MF, map={"m1": ("meta", "m1"), "m2": ("meta", "m2")}, omit_default=True)], debug_trail=dt) for dt in DT_MODES}
+DPF = {dt: r.get_dumper(MF) for dt, r in RF.items()}
+LDF = {dt: r.get_loader(MF) for dt, r in RF.items()}
+def omit_factory(a, i1, i2, i3, i4, i5):
+    """omit_default removes exactly the fields whose value equals the default (also for default factories and falsy look-alikes);
+    the nested node is written even when empty; load(dump(x)) == x"""
+    vals = {"m1": VALS[pick(i1, 11)], "m2": VALS[pick(i2, 11)], "xs": VALS[pick(i3, 11)], "s": VALS[pick(i4, 11)], "n": VALS[pick(i5, 11)]}
+    obj = MF(a, **vals)
+    exp = {"a": a, "meta": {}}
+    for f, v in vals.items():
+        if v == DEFAULTS[f]: continue                       # `==` is the documented comparison
+        if f in ("m1", "m2"): exp["meta"][f] = v
+        else: exp[f] = v
+    for dt in DT_MODES:
+        d = DPF[dt](obj)
+        if d != exp: return False
+        back = LDF[dt](d)
+        for f, v in vals.items():
+            if getattr(back, f) != v: return False
+    return True
+
+# function mappers returning paths with Ellipsis: the key AFTER trimming / name_style
+@dataclasses.dataclass
+class MN:
+    first_name: int
+    from_: int = 0
+    z: int = 1
+RN = {dt: Retort(recipe=[name_mapping(MN, name_style=NameStyle.CAMEL, map=[("first_name|from_", lambda shape, fld: ("g", ...))])], debug_trail=dt) for dt in DT_MODES}
+RL = {dt: Retort(recipe=[name_mapping(MN, as_list=True, map=[("z", lambda shape, fld: ...)])], debug_trail=dt) for dt in DT_MODES}
+def func_mapper(a, b, c):
+    obj = MN(a, b, c)
+    for dt in DT_MODES:
+        if RN[dt].dump(obj) != {"g": {"firstName": a, "from": b}, "z": c}: return False
+        if RN[dt].load({"g": {"firstName": a, "from": b}, "z": c}, MN) != obj: return False
+        if RL[dt].dump(obj) != [a, b, c]: return False
+    return True
+''')
+    mx.ob("omit_factory_defaults", "a: int, i1: int, i2: int, i3: int, i4: int, i5: int", "return omit_factory(a, i1, i2, i3, i4, i5)",
+          pre=["0 <= i1 < 11 and 0 <= i2 < 11 and 0 <= i3 < 11", "0 <= i4 < 11 and 0 <= i5 < 11", "i4 == 2 or i5 == 0"], timeout=tmo * 2,
+          family="omit_default with default factories / falsy look-alikes, two fields flattened into one nested node",
+          bounds="5 defaulted fields (dict/list/str factories, 0, None) x 11 look-alike values (None, 0, '', [], {}, False, 5, [1], {'k': 1}, 'x', ()); slice: one of the last two fields at its default")
+    mx.ob("func_mapper_ellipsis", "a: int, b: int, c: int", "return func_mapper(a, b, c)", timeout=tmo,
+          family="function mappers returning paths with Ellipsis (after trim / name_style / as_list)", bounds="symbolic ints; loader and dumper; 3 debug modes")
+    mods.append(mx)
     return Plan("C03", mods, assumptions=["field loaders/dumpers are stubs honouring the loader contract (assume-guarantee)",
                                           "nested unknown keys are compared after pruning empty sub-mappings (the docs fix names, not the nesting of empties)"],
                 bounds={"fields": "3", "path depth": "<=3", "extra keys": "<=3"},
